@@ -87,6 +87,7 @@ type Env struct {
 	// NoAutoAdvance: when nothing is enabled, Drive returns Quiescent instead
 	// of jumping to the next known deadline (position sweeps place the expiry themselves).
 	NoAutoAdvance bool
+	Held string // name of a task that is not offered to the scheduler while set
 }
 
 // Ev is an entry of the global history.
@@ -195,6 +196,31 @@ func (e *Env) Go(name string, fn func()) *simhook.Task {
 	return simhook.GoNamed(name, fn)
 }
 
+// Call runs fn as a task of its own and drives until it has returned, or until nothing
+// can run any more (fn is stuck, and the oracles will say so). Entry points of the
+// library that take its locks are not called on the driver's own goroutine: the driver is
+// not a task, so a lock held by a parked task would block it for real and the run would
+// end in the watchdog instead of in a verdict.
+func (e *Env) Call(name string, fn func()) bool {
+	done := false
+	e.Go(name, func() {
+		fn()
+		histMu.Lock()
+		done = true
+		histMu.Unlock()
+	})
+	isDone := func() bool {
+		histMu.Lock()
+		defer histMu.Unlock()
+		return done
+	}
+	saved := e.NoAutoAdvance
+	e.NoAutoAdvance = true
+	e.Drive(isDone)
+	e.NoAutoAdvance = saved
+	return isDone()
+}
+
 // Crashes returns the crashes recorded so far (either mode).
 func (e *Env) Crashes() []simhook.Crash {
 	if e.Free {
@@ -232,6 +258,9 @@ type action struct {
 func (e *Env) enabled(buf []action, tb []*simhook.Task) []action {
 	buf = buf[:0]
 	for _, t := range e.W.Enabled(tb[:0]) {
+		if e.Held != "" && t.Name == e.Held {
+			continue // a task the scenario keeps off the processor for a while (a slow thread)
+		}
 		buf = append(buf, action{kind: 'T', name: t.Name, t: t})
 	}
 	for _, l := range e.links {
